@@ -4,6 +4,7 @@ package wx
 
 import (
 	"encoding/base64"
+	"encoding/json"
 	"fmt"
 	"math"
 	"sort"
@@ -97,7 +98,12 @@ func Enc(v any) any {
 	case float64:
 		return map[string]any{"f": strconv.FormatFloat(tv, 'g', -1, 64)}
 	case time.Time:
+		if _, off := tv.Zone(); off != 0 {
+			return map[string]any{"time": strconv.FormatInt(tv.UnixNano(), 10), "zone": strconv.Itoa(off)}
+		}
 		return map[string]any{"time": strconv.FormatInt(tv.UnixNano(), 10)}
+	case json.Number:
+		return map[string]any{"num": string(tv)}
 	case string:
 		if utf8.ValidString(tv) {
 			return map[string]any{"t": tv}
@@ -145,7 +151,14 @@ func Dec(v any) any {
 		}
 		if s, ok := tv["time"].(string); ok {
 			n, _ := strconv.ParseInt(s, 10, 64)
+			if z, ok := tv["zone"].(string); ok {
+				off, _ := strconv.Atoi(z)
+				return time.Unix(0, n).In(time.FixedZone("", off))
+			}
 			return time.Unix(0, n).UTC()
+		}
+		if s, ok := tv["num"].(string); ok {
+			return json.Number(s)
 		}
 		if s, ok := tv["s"].(string); ok {
 			b, _ := base64.StdEncoding.DecodeString(s)
